@@ -49,6 +49,16 @@ class UComp(Comp):
     __hash__ = None
 
 
+class FalsyComp(Comp):
+    """A component that is falsy (an empty container, say)."""
+
+    def __bool__(s):
+        return False
+
+    def __len__(s):
+        return 0
+
+
 def build():
     newworld()
     W = {}
@@ -58,7 +68,7 @@ def build():
     W['R1'] = InterfaceClass('R1', (W['R0'],), {'__module__': wmod()})
     W['u'] = Comp('u', 1)
     W['u2'] = Comp('u', 2)
-    W['v'] = Comp('v', 3)
+    W['v'] = FalsyComp('v', 3)
     W['h'] = UComp('h', 4)
     W['h2'] = UComp('h', 5)
     W['f'] = Comp('f', 6)
